@@ -15,6 +15,7 @@ point (the partial derivatives are arbitrary blocks).
 import GemseoVerif.Lemmas.C09
 import GemseoVerif.Lemmas.C09Par
 import GemseoVerif.Lemmas.C09Mat
+import GemseoVerif.Lemmas.C09Sel
 
 namespace GV.C09
 
@@ -193,6 +194,48 @@ theorem successive_requests_stable [BlockOne β] [LawfulOne β]
   rw [pruned_eq_full vars hnd hall ds _ hds (restrictAll_wf ds sel₁ hds) X O h₁ o x ho hx hod,
     pruned_eq_full vars hnd hall ds _ hds (restrictAll_wf ds sel₂ hds) X O h₂ o x ho hx hod]
 
+/-- **selection_covers_paths ⇒ the pruned chain is exact.**  For a chain listed in a valid order
+    (`ValidChain`: no discipline computes a variable read by an earlier one, dictionary keys are
+    (output, input) names) and any selection containing what `traverse_add_diff_io` selects for the
+    request `(X, O)`, the chain whose disciplines only return the selected partials returns, for the
+    requested pairs, the blocks of the full dictionaries. -/
+theorem traverse_selection_exact [BlockOne β] [LawfulOne β]
+    (vars : List V) (hnd : vars.Nodup) (hall : ∀ v, v ∈ vars)
+    (ds : List (Disc β)) (hds : ∀ d ∈ ds, d.jac.WF) (hv : ValidChain ds)
+    (X O : List V) (sel : List (DiscIO V)) (hlen : sel.length = ds.length)
+    (hsel : ∀ k, k < ds.length →
+      (∀ v, v ∈ (traverseSelect (iosOf ds) X O k).1 → v ∈ (sel.getD k ([], [])).1) ∧
+      (∀ v, v ∈ (traverseSelect (iosOf ds) X O k).2 → v ∈ (sel.getD k ([], [])).2))
+    (o x : V) (ho : o ∈ O) (hx : x ∈ X) (hod : ∃ d ∈ ds, o ∈ d.outs) :
+    chainJac vars zeroFill (restrictAll ds sel) o x = chainJac vars zeroFill ds o x :=
+  pruned_eq_full vars hnd hall ds _ hds (restrictAll_wf ds sel hds) X O
+    (selection_covers_paths hv X O sel hlen hsel) o x ho hx hod
+
+/-- **Any history of requests.**  Start from a fresh `MDOChain`, replay any list of requests
+    (`_compute_diff_in_outs` with its `_last_diff_inouts` cache and the cumulative
+    `add_differentiated_*`), then request `(xs, os)`: the block returned for every requested pair is
+    the forward-mode total derivative computed with the *full* dictionaries — it depends neither on
+    the history nor on the other requested pairs. -/
+theorem request_history_exact [BlockOne β] [LawfulOne β]
+    (vars : List V) (hnd : vars.Nodup) (hall : ∀ v, v ∈ vars)
+    (ds : List (Disc β)) (hds : ∀ d ∈ ds, d.jac.WF) (hv : ValidChain ds)
+    (history : List (List V × List V)) (xs os : List V)
+    (o x : V) (ho : o ∈ os) (hx : x ∈ xs) (hod : ∃ d ∈ ds, o ∈ d.outs) :
+    chainJac vars zeroFill
+        (restrictAll ds
+          ((((ChainState.init ds.length).run (iosOf ds) history).request (iosOf ds) xs os).1.sel)) o x
+      = fwd ds (seedAt x) o := by
+  have hinit : (ChainState.init ds.length : ChainState V).Inv (iosOf ds) := by
+    have := ChainState.init_inv (iosOf ds); simpa using this
+  have hinv := ChainState.request_inv (iosOf ds) _
+    (ChainState.run_inv (iosOf ds) _ hinit history) xs os
+  obtain ⟨lx, lo, hlast, hlx, hlo⟩ := ChainState.request_last (iosOf ds)
+    ((ChainState.init ds.length).run (iosOf ds) history) xs os
+  have hsel := hinv.2 lx lo hlast
+  rw [traverse_selection_exact vars hnd hall ds hds hv lx lo _ (by simpa using hinv.1)
+    (fun k hk => hsel k (by simpa using hk)) o x ((hlo o).mpr ho) ((hlx x).mpr hx) hod]
+  exact reverse_eq_forward_unit vars hnd hall ds hds o hod x
+
 end
 
 /-! ### Non-vacuity examples and witnesses of the defects of the pinned tree -/
@@ -223,6 +266,36 @@ example : ¬ dependsOn diamond (fun v => v = 1) 2 := by
 /-- …and `o` depends on `x`. -/
 example : dependsOn diamond (fun v => v = 0) 3 := by
   simp [dependsOn, reachStep, diamond, mkDisc, DJac.present]
+
+/-- The diamond is a chain in valid order (the quantifier of the property is inhabited). -/
+theorem diamond_valid : ValidChain diamond := by
+  refine ⟨?_, ?_⟩
+  · intro i j di dj hi hj hij v hvo hvi
+    have hj3 : j < 3 := by have := lt_of_getElem? hj; simpa [diamond] using this
+    have hcases : (i = 0 ∧ j = 1) ∨ (i = 0 ∧ j = 2) ∨ (i = 1 ∧ j = 2) := by omega
+    rcases hcases with ⟨rfl, rfl⟩ | ⟨rfl, rfl⟩ | ⟨rfl, rfl⟩ <;>
+      simp [diamond] at hi hj <;> subst hi <;> subst hj <;> simp [mkDisc] at hvo hvi <;>
+      (subst hvo; simp at hvi)
+  · intro d hd w v hp
+    simp only [diamond, List.mem_cons, List.not_mem_nil, or_false] at hd
+    rcases hd with rfl | rfl | rfl <;> exact hp
+
+/-- `request_history_exact` is not vacuous: after the requests `(x → y)` and `(x → z)`, the request
+    `(x → o)` on the diamond, with the partials selected by the traversals only, returns 31. -/
+example : (chainJac (β := ConstBlocks (Fin 4) Int) [0, 1, 2, 3] zeroFill
+    (restrictAll diamond
+      ((((ChainState.init diamond.length).run (iosOf diamond) [([0], [1]), ([0], [2])]).request
+        (iosOf diamond) [0] [3]).1.sel)) 3 0).toS = 31 := by
+  have := request_history_exact (β := ConstBlocks (Fin 4) Int) [0, 1, 2, 3] (by decide) (by decide)
+    diamond diamond_wf diamond_valid [([0], [1]), ([0], [2])] [0] [3] 3 0 (by simp) (by simp)
+    ⟨mkDisc [1, 2] [3] [(3, 1, 5), (3, 2, 7)], by simp [diamond], by simp [mkDisc]⟩
+  rw [this, ← reverse_eq_forward_unit [0, 1, 2, 3] (by decide) (by decide) diamond diamond_wf 3
+    ⟨mkDisc [1, 2] [3] [(3, 1, 5), (3, 2, 7)], by simp [diamond], by simp [mkDisc]⟩ 0]
+  decide
+
+/-- The traversal prunes: for the request `(x → y)` on the diamond the third discipline is asked
+    for nothing. -/
+example : traverseSelect (iosOf diamond) [0] [1] 2 = ([], []) := by decide
 
 /-- **Witness of the defect of the pinned tree (MDOChain).**  On the chain
     `A: y = 2x; B: y = 5x; C: o = 7y` (a variable computed twice, acyclic name graph, valid order)
